@@ -212,6 +212,18 @@ pub fn entry_points() -> Vec<EntryPoint> {
         for _ in 0 .. 3 { if t.next().is_some() { return Err("tokenizer resumed after None".into()) } let _ = t.token(); }
         Ok(true)
     }));
+    v.push(acc!("Decoder::tokens() iterated past errors", "tokens", |d, buf| {
+        let mut n = 0usize;
+        { let mut t = d.tokens(); loop { match t.next() { None => break, Some(_) => { n += 1; if n > buf.len() + 8 { return Err(format!("borrowed tokenizer yielded {} items for {} bytes", n, buf.len())) } } } }
+          for _ in 0 .. 3 { if t.next().is_some() { return Err("borrowed tokenizer resumed after None".into()) } } }
+        Ok(true)
+    }));
+    v.push(acc!("Tokenizer::from(&mut Decoder) iterated past errors", "tokens", |d, buf| {
+        let mut n = 0usize;
+        let mut t = Tokenizer::from(&mut *d);
+        loop { match t.next() { None => break, Some(_) => { n += 1; if n > buf.len() + 8 { return Err(format!("borrowed tokenizer yielded {} items for {} bytes", n, buf.len())) } } } }
+        Ok(true)
+    }));
     v.push(acc!("Tokenizer::token until error", "tokens", |d, buf| { let mut t = Tokenizer::from(&mut *d); let mut n = 0; while t.token().is_ok() { n += 1; if n > buf.len() + 8 { return Err("token() keeps succeeding".into()) } } Ok(false) }));
     v.push(acc!("decode::<Token>", "tokens", |d, buf| match d.decode::<Token>() { Ok(Token::Bytes(b)) => { inb(b.as_ptr(), b.len(), buf, "Token::Bytes")?; Ok(true) } Ok(Token::String(s)) => { inb(s.as_ptr(), s.len(), buf, "Token::String")?; Ok(true) } Ok(_) => Ok(true), Err(_) => Ok(false) }));
     v.push(acc!("probe then accessors", "probe", |d, buf| { let before = d.position(); { let mut p = d.probe(); let _ = p.skip(); let _ = p.str(); let _ = p.decode::<Vec<u8>>(); } if d.position() != before { return Err(format!("probe moved the decoder from {} to {}", before, d.position())) } Ok(d.skip().is_ok()) }));
